@@ -46,10 +46,9 @@ pub mod itoa {
     use vstd::prelude::*;
     pub trait Integer { spec fn dec_text(&self) -> Seq<char>; }
     // exact decimal rendering: optional '-' then the digits of |n|
-    pub uninterp spec fn dec_i64(n: i64) -> Seq<char>;
-    pub uninterp spec fn dec_u64(n: u64) -> Seq<char>;
-    impl Integer for i64 { open spec fn dec_text(&self) -> Seq<char> { dec_i64(*self) } }
-    impl Integer for u64 { open spec fn dec_text(&self) -> Seq<char> { dec_u64(*self) } }
+    pub uninterp spec fn dec_int(n: int) -> Seq<char>;
+    impl Integer for i64 { open spec fn dec_text(&self) -> Seq<char> { dec_int(*self as int) } }
+    impl Integer for u64 { open spec fn dec_text(&self) -> Seq<char> { dec_int(*self as int) } }
     #[verifier::external_body]
     pub struct Buffer { _b: u8 }
     impl Buffer {
